@@ -128,6 +128,9 @@ func runCollect(t *testing.T, st *RunStats) {
 		if keepEvery > 0 && count > 64 {
 			st.AddNonTrivial([]byte(fmt.Sprint("collect", capacity, count, how, keepEvery)))
 		}
+		if len(st.Samples) < 4 && n%97 == 0 {
+			st.Samples = append(st.Samples, map[string]any{"kind": "collectability scenario", "capacity": capacity, "entities": count, "released_by": collectNames[how], "keep_every": keepEvery, "finalized": fin, "expected": exp})
+		}
 	})
 	st.Classes["collect-scenarios"] += n
 }
